@@ -41,18 +41,6 @@ Proof.
 Qed.
 Print Assumptions C09_int_width_refuted.
 
-(* div-zero *)
-Theorem C09_const_expr_refuted :        (* const A = 1 / 0 *)
-  exists e, ceval [] e = Crash ZeroDivisionError.
-Proof. exists (CDiv (CLitE 1) (CLitE 0)). vm_compute. reflexivity. Qed.
-Print Assumptions C09_const_expr_refuted.
-
-(* import-in-message *)
-Theorem C09_import_in_message_refuted :  (* parser.py:702 hands p[0] (None) to from_token *)
-  message_item_outcome IImport = Crash AttributeError.
-Proof. exact message_item_import_crashes. Qed.
-Print Assumptions C09_import_in_message_refuted.
-
 (* huge-int-str: p_error *)
 Theorem C09_p_error_refuted :            (* uint8[0xFFF…F] : str(p.value) in p_error *)
   exists path z, In path p_error_paths /\ p_error_path_outcome path (TInt z) = Crash ValueError.
@@ -64,12 +52,6 @@ Theorem C09_array_token_refuted :        (* uint8[A] with a constant A >= 10^430
   exists cap, array_type_token cap = Crash ValueError.
 Proof. exact array_token_huge. Qed.
 Print Assumptions C09_array_token_refuted.
-
-(* empty-enum *)
-Theorem C09_render_empty_enum_refuted :   (* enum E : uint3 {}  message M { E e = 1 } *)
-  exists t, render LPy t [] = Crash IndexError /\ render LC t [] = Ok tt /\ render LGo t [] = Ok tt.
-Proof. exists (TMsg false [(1, TEnum 3 [])]). vm_compute. repeat split; reflexivity. Qed.
-Print Assumptions C09_render_empty_enum_refuted.
 
 (* huge-int-str: format_int_value *)
 Theorem C09_render_huge_int_refuted :     (* const A = 0xFFF…F (>= 10^4300): all three languages *)
